@@ -5,6 +5,11 @@ EXTENDS Reload, TLC
 (* one user name shared by all namespaces, one password per configuration *)
 MCCredOf(s, n, v) == {<<"u", <<n, v>>>>}
 
+(* exact string functions for these credentials: the key is the pair itself *)
+MCJoinKey(u, p) == <<u, p>>
+MCSplitUser(k)  == k[1]
+MCSplitPw(k)    == k[2]
+
 (* started empty, or with namespace "n1" loaded at version 1 *)
 MCInit == {[n \in NS |-> None], [n \in NS |-> IF n = "n1" THEN 1 ELSE None]}
 ===================================================================================
